@@ -169,7 +169,72 @@ func VerifC11_Chain() {
 	c11Check(c11Key(chains[i], &a), c11Key(chains[j], &a), "key-depends-on-chain")
 }
 
+// c11Text returns an arbitrary text of n bytes; noSlash restricts it to texts an
+// honest observation can contain in an address-like field (no '/').
+func c11Text(name string, n int, noSlash bool) string {
+	b := sym.Bytes(name, n)
+	if noSlash {
+		for _, c := range b {
+			sym.Assume(c != '/')
+		}
+	}
+	return string(b)
+}
+
+// VerifC11_SaleJoint: joint injectivity of the sale claim key. Claim a is what the
+// honest validators observed (buyer address, contract and deployment id are
+// identifiers without '/'); claim b is ANYTHING a validator may submit under the
+// same nonce — texts of other lengths, with or without '/', another amount.
+// If b differs from a in any effect-bearing field the two must not share a key,
+// however the differences are spread over adjacent fields.
+func VerifC11_SaleJoint() {
+	amounts := []int64{0, 1, 10, 5, 15}
+	a := MsgLightNodeSaleClaim{EventNonce: 7, EthBlockHeight: 100, Orchestrator: "paloma1orch", ChainReferenceId: "test-chain", SkywayNonce: 7}
+	b := a
+	a.ClientAddress = c11Text("a-client", 1+sym.Choice("a-client-len", 2), true)
+	a.Amount = sdkmath.NewInt(amounts[sym.Choice("a-amount", 3)])
+	a.SmartContractAddress = c11Text("a-contract", 1, true)
+	a.CompassId = c11Text("a-compass", 1, true)
+	b.ClientAddress = c11Text("b-client", sym.Choice("b-client-len", 4), false)
+	b.Amount = sdkmath.NewInt(amounts[sym.Choice("b-amount", len(amounts))])
+	b.SmartContractAddress = c11Text("b-contract", sym.Choice("b-contract-len", 4), false)
+	b.CompassId = c11Text("b-compass", sym.Choice("b-compass-len", 3), false)
+	differ := sym.Or(sym.Or(a.ClientAddress != b.ClientAddress, !a.Amount.Equal(b.Amount)), sym.Or(a.SmartContractAddress != b.SmartContractAddress, a.CompassId != b.CompassId))
+	sym.Assume(differ)
+	c11Check(c11Key("test-chain", &a), c11Key("test-chain", &b), "sale-claims-differing-anywhere-have-different-keys")
+}
+
+// VerifC11_DepositJoint: the same for the deposit claim. Sender and token are
+// validated Ethereum addresses (ValidateBasic), the receiver is deliberately
+// free text chosen by the depositor on the remote chain — it may contain '/' —
+// and both claims carry the deployment id the tally filters on.
+func VerifC11_DepositJoint() {
+	amounts := []int64{0, 1, 10, 5, 15}
+	a, b := c11Deposit()
+	a.PalomaReceiver = c11Text("a-receiver", sym.Choice("a-receiver-len", 4), false)
+	b.PalomaReceiver = c11Text("b-receiver", sym.Choice("b-receiver-len", 4), false)
+	a.Amount = sdkmath.NewInt(amounts[sym.Choice("a-amount", 3)])
+	b.Amount = sdkmath.NewInt(amounts[sym.Choice("b-amount", len(amounts))])
+	a.EthereumSender, b.EthereumSender = c11Addr("a-sender"), c11Addr("b-sender")
+	a.TokenContract, b.TokenContract = c11Addr("a-token"), c11Addr("b-token")
+	sym.Assume(a.ValidateClaimFields() == nil && b.ValidateClaimFields() == nil)
+	differ := sym.Or(sym.Or(a.PalomaReceiver != b.PalomaReceiver, !a.Amount.Equal(b.Amount)), sym.Or(a.EthereumSender != b.EthereumSender, a.TokenContract != b.TokenContract))
+	sym.Assume(differ)
+	c11Check(c11Key("test-chain", &a), c11Key("test-chain", &b), "deposit-claims-differing-anywhere-have-different-keys")
+}
+
+// ValidateClaimFields is the stateless address validation of ValidateBasic (the
+// metadata part is not about the claim).
+func (msg *MsgSendToPalomaClaim) ValidateClaimFields() error {
+	if err := ValidateEthAddress(msg.EthereumSender); err != nil {
+		return err
+	}
+	return ValidateEthAddress(msg.TokenContract)
+}
+
 var VerifEntries = map[string]func(){
+	"VerifC11_SaleJoint":    VerifC11_SaleJoint,
+	"VerifC11_DepositJoint": VerifC11_DepositJoint,
 	"VerifC11_Deposit": VerifC11_Deposit,
 	"VerifC11_Batch":   VerifC11_Batch,
 	"VerifC11_Sale":    VerifC11_Sale,
